@@ -128,44 +128,47 @@ def run(ctx):
         res.check(bool(dd) and norm(dd[-1].value) == f"sum({new}.values())", "D-SERIES", f, norm(dd[-1]) if dd else src, "count-of-new", "the recorded count is not the number of infected nodes of the new state", loc(v.fi, inner[0]))
 
     # ---- transition matrix
-    v = ctx.view("randwalk.transition_matrix")
-    f = v.fi.short
-    augs = [n for n in walk_no_nested(v.fi.node) if isinstance(n, ast.AugAssign) and isinstance(n.target, ast.Subscript)]
-    if len(augs) != 2:
-        raise AnalysisError(f"{f}: accumulation idiom not recognised")
-    a, b = augs
-    ia = [norm(x) for x in a.target.slice.elts] if isinstance(a.target.slice, ast.Tuple) else []
-    ib = [norm(x) for x in b.target.slice.elts] if isinstance(b.target.slice, ast.Tuple) else []
-    res.check(len(ia) == 2 and ia == ib[::-1] and ia[0] != ia[1], "D-SYM", f, f"{norm(a.target)} / {norm(b.target)}", "transposed", "the two updates are not the (i,j) and (j,i) cells of the same pair", loc(v.fi, a))
-    res.check(norm(a.value) == norm(b.value) and isinstance(a.op, ast.Add) and isinstance(b.op, ast.Add), "D-SYM", f, f"{norm(a)} / {norm(b)}", "same-increment", "(i,j) and (j,i) receive different increments: the weight matrix is not symmetric", loc(v.fi, a))
-    lp = v.enclosing(a, (ast.For,))
-    outer = v.enclosing_all(a, (ast.For,))[-1]
-    lname = norm(outer.target)
-    res.check(norm(a.value) == f"len({lname}) - 1", "D-SYM", f, norm(a.value), "size-1", "the increment is not (hyperedge size - 1)", loc(v.fi, a))
-    _loop_pairs(res, v, rule="D-SYM")
-    normed = [n for n in walk_no_nested(v.fi.node) if isinstance(n, ast.BinOp) and isinstance(n.op, ast.Div) and "sum(axis=1)" in norm(n.right)]
-    res.check(bool(normed), "D-SYM", f, norm(normed[0]) if normed else "T / T.sum(axis=1)", "row-normalised", "rows are not divided by their sums", loc(v.fi, v.fi.node))
+    with res.guard("transition matrix"):
+        v = ctx.view("randwalk.transition_matrix")
+        f = v.fi.short
+        augs = [n for n in walk_no_nested(v.fi.node) if isinstance(n, ast.AugAssign) and isinstance(n.target, ast.Subscript)]
+        if len(augs) != 2:
+            raise AnalysisError(f"{f}: accumulation idiom not recognised")
+        a, b = augs
+        ia = [norm(x) for x in a.target.slice.elts] if isinstance(a.target.slice, ast.Tuple) else []
+        ib = [norm(x) for x in b.target.slice.elts] if isinstance(b.target.slice, ast.Tuple) else []
+        res.check(len(ia) == 2 and ia == ib[::-1] and ia[0] != ia[1], "D-SYM", f, f"{norm(a.target)} / {norm(b.target)}", "transposed", "the two updates are not the (i,j) and (j,i) cells of the same pair", loc(v.fi, a))
+        res.check(norm(a.value) == norm(b.value) and isinstance(a.op, ast.Add) and isinstance(b.op, ast.Add), "D-SYM", f, f"{norm(a)} / {norm(b)}", "same-increment", "(i,j) and (j,i) receive different increments: the weight matrix is not symmetric", loc(v.fi, a))
+        lp = v.enclosing(a, (ast.For,))
+        outer = v.enclosing_all(a, (ast.For,))[-1]
+        lname = norm(outer.target)
+        res.check(norm(a.value) == f"len({lname}) - 1", "D-SYM", f, norm(a.value), "size-1", "the increment is not (hyperedge size - 1)", loc(v.fi, a))
+        with res.guard("_loop_pairsres, v, ruleDSYM"):
+            _loop_pairs(res, v, rule="D-SYM")
+        normed = [n for n in walk_no_nested(v.fi.node) if isinstance(n, ast.BinOp) and isinstance(n.op, ast.Div) and "sum(axis=1)" in norm(n.right)]
+        res.check(bool(normed), "D-SYM", f, norm(normed[0]) if normed else "T / T.sum(axis=1)", "row-normalised", "rows are not divided by their sums", loc(v.fi, v.fi.node))
     # ---- density / walk
-    v = ctx.view("randwalk.random_walk_density")
-    f = v.fi.short
-    lp = [n for n in walk_no_nested(v.fi.node) if isinstance(n, ast.For)]
-    if len(lp) != 1:
-        raise AnalysisError(f"{f}: propagation loop not recognised")
-    upd = [n for n in lp[0].body if isinstance(n, ast.Assign) and isinstance(n.value, ast.BinOp) and isinstance(n.value.op, ast.MatMult)]
-    res.check(len(upd) == 1 and norm(upd[0].value.left) == norm(upd[0].targets[0]) and norm(upd[0].value.right) == "K", "D-STEP", f, norm(upd[0]) if upd else "s = s @ K", "s<-sK", "the density is not propagated as s <- s K (previous density times the transition matrix)", loc(v.fi, lp[0]))
-    app = [n for n in ast.walk(lp[0]) if isinstance(n, ast.Call) and isinstance(n.func, ast.Attribute) and n.func.attr == "append"]
-    res.check(len(app) == 1 and bool(upd) and norm(app[0].args[0]) == norm(upd[0].targets[0]) and app[0].lineno > upd[0].lineno, "D-STEP", f, norm(app[0]) if app else "density_list.append(s)", "append-new", "the appended density is not the one just computed", loc(v.fi, lp[0]))
-    kdef = [n for n in walk_no_nested(v.fi.node) if isinstance(n, ast.Assign) and norm(n.targets[0]) == "K"]
-    res.check(bool(kdef) and "transition_matrix(HG)" in norm(kdef[0].value), "D-STEP", f, norm(kdef[0]) if kdef else "K = transition_matrix(HG)", "K", "K is not the transition matrix of the given hypergraph", loc(v.fi, v.fi.node))
-    v = ctx.view("randwalk.random_walk")
-    f = v.fi.short
-    ch = [n for n in walk_no_nested(v.fi.node) if isinstance(n, ast.Call) and norm(n.func) == "np.random.choice"]
-    if len(ch) != 1:
-        raise AnalysisError(f"{f}: step idiom not recognised")
-    kw = {k.arg: k.value for k in ch[0].keywords}
-    res.check("p" in kw and norm(kw["p"]) in ("K[nodes[-1], :]", "K[nodes[-1]]"), "D-STEP", f, norm(ch[0]), "row-of-last", "the next node is not drawn with the transition row of the last visited node", loc(v.fi, ch[0]))
-    asg = v.parent.get(id(ch[0]))
-    app = [n for n in walk_no_nested(v.fi.node) if isinstance(n, ast.Call) and isinstance(n.func, ast.Attribute) and n.func.attr == "append" and norm(n.func.value) == "nodes"]
-    res.check(isinstance(asg, ast.Assign) and len(app) == 1 and norm(app[0].args[0]) == norm(asg.targets[0]), "D-STEP", f, norm(app[0]) if app else "nodes.append(next_node)", "append-drawn", "the drawn node is not what gets appended to the walk", loc(v.fi, ch[0]))
+    with res.guard("density / walk"):
+        v = ctx.view("randwalk.random_walk_density")
+        f = v.fi.short
+        lp = [n for n in walk_no_nested(v.fi.node) if isinstance(n, ast.For)]
+        if len(lp) != 1:
+            raise AnalysisError(f"{f}: propagation loop not recognised")
+        upd = [n for n in lp[0].body if isinstance(n, ast.Assign) and isinstance(n.value, ast.BinOp) and isinstance(n.value.op, ast.MatMult)]
+        res.check(len(upd) == 1 and norm(upd[0].value.left) == norm(upd[0].targets[0]) and norm(upd[0].value.right) == "K", "D-STEP", f, norm(upd[0]) if upd else "s = s @ K", "s<-sK", "the density is not propagated as s <- s K (previous density times the transition matrix)", loc(v.fi, lp[0]))
+        app = [n for n in ast.walk(lp[0]) if isinstance(n, ast.Call) and isinstance(n.func, ast.Attribute) and n.func.attr == "append"]
+        res.check(len(app) == 1 and bool(upd) and norm(app[0].args[0]) == norm(upd[0].targets[0]) and app[0].lineno > upd[0].lineno, "D-STEP", f, norm(app[0]) if app else "density_list.append(s)", "append-new", "the appended density is not the one just computed", loc(v.fi, lp[0]))
+        kdef = [n for n in walk_no_nested(v.fi.node) if isinstance(n, ast.Assign) and norm(n.targets[0]) == "K"]
+        res.check(bool(kdef) and "transition_matrix(HG)" in norm(kdef[0].value), "D-STEP", f, norm(kdef[0]) if kdef else "K = transition_matrix(HG)", "K", "K is not the transition matrix of the given hypergraph", loc(v.fi, v.fi.node))
+        v = ctx.view("randwalk.random_walk")
+        f = v.fi.short
+        ch = [n for n in walk_no_nested(v.fi.node) if isinstance(n, ast.Call) and norm(n.func) == "np.random.choice"]
+        if len(ch) != 1:
+            raise AnalysisError(f"{f}: step idiom not recognised")
+        kw = {k.arg: k.value for k in ch[0].keywords}
+        res.check("p" in kw and norm(kw["p"]) in ("K[nodes[-1], :]", "K[nodes[-1]]"), "D-STEP", f, norm(ch[0]), "row-of-last", "the next node is not drawn with the transition row of the last visited node", loc(v.fi, ch[0]))
+        asg = v.parent.get(id(ch[0]))
+        app = [n for n in walk_no_nested(v.fi.node) if isinstance(n, ast.Call) and isinstance(n.func, ast.Attribute) and n.func.attr == "append" and norm(n.func.value) == "nodes"]
+        res.check(isinstance(asg, ast.Assign) and len(app) == 1 and norm(app[0].args[0]) == norm(asg.targets[0]), "D-STEP", f, norm(app[0]) if app else "nodes.append(next_node)", "append-drawn", "the drawn node is not what gets appended to the walk", loc(v.fi, ch[0]))
     res.assumptions += ["transition_matrix / random walks index by label (one-symbol exemption: the property restricts them to nodes 0..N-1)", "numeric stochasticity / stationarity are not decided"]
     return res
